@@ -258,6 +258,15 @@ Section EquivModel.
   Definition diffusion_matrix (fexp fsqrt : F -> F) (width : F) (n : nat) (dist : mat F) : mat F :=
     diff_K2 fsqrt n (diff_K1 n (diff_K0 fexp width dist)).
 
+  (* the same with the oracle VALUES as tables (execution): K0 = the heat values the code
+     computed, s i = its sqrt of the i-th column sum of K1 *)
+  Definition diffusion_from_values (n : nat) (K0 : mat F) (s : vec F) : mat F :=
+    fun i j => diff_K1 n K0 i j / (s i * s j).
+  Definition diffusion_K1_exec (n : nat) (LK0 : list (list F)) : list (list F) :=
+    mtab n n (diff_K1 n (mof LK0)).
+  Definition diffusion_exec (n : nat) (LK0 : list (list F)) (Ls : list F) : list (list F) :=
+    mtab n n (diffusion_from_values n (mof LK0) (vof Ls)).
+
   (* ---------------------------------------------------------------- *)
   (* feature-space pencils (NPE, LPP, LLTSA); W, Dg are sample-space   *)
   (* objects; a, b range over features.  FULL symmetric tables (the    *)
